@@ -188,7 +188,7 @@ func runScenario(sc *h.Scenario, cov *h.Coverage, keepLog bool) (*h.Exec, *h.Vio
 // property, tier, seed and index) and then sc, all in this process.
 func runWithPrelude(sc *h.Scenario, cov *h.Coverage, keepLog bool) (*h.Exec, *h.Violation) {
 	for _, idx := range sc.Prelude {
-		runScenario(scen.Generate(sc.Property, sc.Tier, sc.Seed, idx), nil, false)
+		runScenario(scen.Generate(sc.Property, sc.Tier, sc.Seed, idx).Clone(), nil, false)
 	}
 	return runScenario(sc, cov, keepLog)
 }
@@ -257,7 +257,10 @@ func cmdWorker(args []string) int {
 		if *single >= 0 {
 			idx = *single
 		}
-		sc := scen.Generate(*prop, *tier, *seed, idx)
+		// what runs is what a replay file holds: the generated scenario after a
+		// JSON round trip (objects the generator shares between two places of a
+		// world become copies, as they are for anyone loading the file)
+		sc := scen.Generate(*prop, *tier, *seed, idx).Clone()
 		// crash attribution: record what is in flight before running it
 		w.InFlight = idx
 		sc.Save(filepath.Join(*out, fmt.Sprintf("inflight-%d.json", *worker)))
